@@ -13,9 +13,10 @@ from bctmc import smallscope as ss
 from bctmc import oracles as orc
 from bctmc.runner import guarded
 from bctmc.tally import Tally
+from bctmc import dtypes
 
 PROPERTY = 'C14'
-RULE = ('all 15 set partitions of 4 nodes x relabelling family {zero-based, reversed, x10, sparse, +10^6, float, negative, all '
+RULE = ('element types: every routine also on int64 / int32 / uint8 / bool copies of all 4-node graphs over {-1,0,1} and 3-node digraphs over {0,1,2} x 3 partitions (same values as for float64; integers must not raise, a boolean matrix may be rejected with TypeError); all 15 set partitions of 4 nodes x relabelling family {zero-based, reversed, x10, sparse, +10^6, float, negative, all '
         'renamings for k<=3} x W in {all 64 binary 4-node graphs, weights {0,1,2} (729) and {0,1/2,1} (729), 3-node digraphs over {0,1/2,2} (729), signed {-1,0,1} (729), binary '
         'digraphs with <=... (every 16th of 4096)} for participation_coef (3 degree modes), participation_coef_sign, '
         'module_degree_zscore (flags 0-3), diversity_coef_sign, gateway_coef_sign (2 centrality types), modularity_und/_dir '
@@ -64,6 +65,26 @@ FAMILIES = {
 }
 
 
+_CI4 = (np.array([1, 1, 2, 2]), np.array([1, 2, 2, 3]), np.array([7, 3, 7, 3]))
+
+
+def _with_ci(f):
+    return lambda A: tuple(f(A, ci[:len(A)].copy()) for ci in _CI4)
+
+
+ETYPE_FUNCS = [
+    ('participation_coef', _with_ci(lambda A, ci: bct.participation_coef(A, ci)), lambda A, d: not d),
+    ('participation_coef[in]', _with_ci(lambda A, ci: bct.participation_coef(A, ci, degree='in')), lambda A, d: d),
+    ('module_degree_zscore', _with_ci(lambda A, ci: bct.module_degree_zscore(A, ci)), lambda A, d: not d),
+    ('module_degree_zscore[3]', _with_ci(lambda A, ci: bct.module_degree_zscore(A, ci, 3)), lambda A, d: d),
+    ('participation_coef_sign', _with_ci(bct.participation_coef_sign), lambda A, d: not d),
+    ('diversity_coef_sign', _with_ci(bct.diversity_coef_sign), lambda A, d: not d),
+    ('modularity_und_sign', _with_ci(lambda A, ci: bct.modularity_und_sign(A, ci)[1]), lambda A, d: not d),
+    ('modularity_und[kci]', _with_ci(lambda A, ci: bct.modularity_und(A, kci=ci)[1]), lambda A, d: not d),
+    ('modularity_dir[kci]', _with_ci(lambda A, ci: bct.modularity_dir(A, kci=ci)[1]), lambda A, d: d),
+]
+
+
 def plan(ctx):
     units = []
     for name, (kind, directed, n, alpha, stride, tier) in FAMILIES.items():
@@ -79,6 +100,7 @@ def plan(ctx):
             units.append(('pd', n, list(range(k, min(len(parts), k + 4)))))
     units.append(('agree', 4, None))
     units.append(('ls', 5 if ctx.thorough else 4, None))
+    units += dtypes.units([(False, 4, (-1, 0, 1)), (True, 3, (0, 1, 2))])
     return units
 
 
@@ -101,6 +123,8 @@ def same_result(a, b):
 
 
 def work(unit):
+    if unit[0] == 'etype':
+        return dtypes.work_unit(PROPERTY, ETYPE_FUNCS, unit)
     t = Tally(PROPERTY)
     if unit[0] == 'fun':
         _, name, idxs = unit
@@ -256,6 +280,8 @@ def work(unit):
 
 
 def replay(rec):
+    if rec['case'].get('family') == 'element_types':
+        return dtypes.replay(PROPERTY, ETYPE_FUNCS, rec['case'])
     t = Tally(PROPERTY)
     c = rec['case']
     fn = rec['function']
